@@ -370,7 +370,9 @@ func runGSync(f *hx.Flags) {
 	variant := "cur"
 	nprog, nsched, bound, limit := r.N(700), 6, 2, 12000
 	if f.Tier == "thorough" {
-		nprog, nsched, bound, limit = r.N(12000), 12, 3, 300000
+		// 100000 schedules per enumerated program (20 programs): about 20 minutes; the widened search
+		// after a broken lock-step keeps the larger budget
+		nprog, nsched, bound, limit = r.N(12000), 12, 3, 100000
 	}
 	for i := 0; i < nprog; i++ {
 		progs := genProgs(r.Rng)
